@@ -79,10 +79,10 @@ func parseJobID(s string) (int, bool) {
 func check(c Case) *core.Violation {
 	jobs := lang.NewJobs()
 	var (
-		all     []*job             // every job ever added
+		all     []*job // every job ever added
 		byProc  = map[*lang.Process]*job{}
-		running = map[int]*job{}   // id -> running job
-		used    = map[int]bool{}   // ids ever issued
+		running = map[int]*job{} // id -> running job
+		used    = map[int]bool{} // ids ever issued
 		maxID   = 0
 		trace   []string
 	)
